@@ -10,7 +10,7 @@ use std::sync::{Condvar, Mutex, MutexGuard};
 
 use super::json::J;
 use super::rng::Rng;
-use crate::board::transposition_table::{TTEntry, TranspositionTable, TRANSPOSITION_TABLE};
+use crate::board::transposition_table::{TTEntry, TRANSPOSITION_TABLE};
 use crate::board::zkey::ZKey;
 use crate::board::Board;
 use crate::verif_hooks::{self as vh, Label, Sim, Site};
@@ -19,6 +19,7 @@ pub const NT: usize = 16;
 pub const NL: usize = 11;
 const NONE: usize = usize::MAX;
 pub const EOF_SPIN_LIMIT: u64 = 300;
+pub const EXIT_ALLOW_TICKS: u64 = 40_000;
 
 #[derive(Clone, Copy, PartialEq, Eq, Debug, Hash)]
 #[repr(u8)]
@@ -365,6 +366,9 @@ pub enum EndReason {
     TickCap,
     EofSpin,
     Deadlock,
+    /// quit / end-of-input was seen, the input thread did not return, and other threads
+    /// have meanwhile done more than EXIT_ALLOW_TICKS of work.
+    ExitOverdue,
 }
 
 #[derive(Clone, Debug)]
@@ -420,7 +424,7 @@ enum Status {
 struct TState {
     status: Status,
     rec: ThreadRec,
-    tt_snap: Option<TranspositionTable>,
+    tt_snap: Option<TtSnap>,
 }
 
 struct State {
@@ -462,6 +466,7 @@ struct State {
     stalls_fired: u64,
     clock_jumps: u64,
     deliveries: u64,
+    exit_req_ticks: Option<u64>,
 }
 
 pub struct Kernel {
@@ -530,6 +535,8 @@ pub fn install() {
     });
 }
 
+// The cache is touched only through `clear`, `len` and `iter` so that the harness keeps
+// compiling when the table's concrete type is refactored.
 pub fn clear_tt() {
     let mut g = match TRANSPOSITION_TABLE.write() {
         Ok(g) => g,
@@ -539,7 +546,6 @@ pub fn clear_tt() {
         }
     };
     g.clear();
-    g.shrink_to_fit();
 }
 
 pub fn tt_len() -> usize {
@@ -549,14 +555,17 @@ pub fn tt_len() -> usize {
     }
 }
 
-fn tt_clone() -> TranspositionTable {
-    match TRANSPOSITION_TABLE.read() {
-        Ok(g) => g.clone(),
-        Err(p) => p.into_inner().clone(),
-    }
+type TtSnap = std::collections::HashMap<ZKey, TTEntry>;
+
+fn tt_clone() -> TtSnap {
+    let g = match TRANSPOSITION_TABLE.read() {
+        Ok(g) => g,
+        Err(p) => p.into_inner(),
+    };
+    g.iter().map(|(k, v)| (*k, *v)).collect()
 }
 
-fn tt_diff(old: &TranspositionTable) -> u64 {
+fn tt_diff(old: &TtSnap) -> u64 {
     let g = match TRANSPOSITION_TABLE.read() {
         Ok(g) => g,
         Err(p) => p.into_inner(),
@@ -672,6 +681,7 @@ impl Kernel {
             stalls_fired: 0,
             clock_jumps: 0,
             deliveries: 0,
+            exit_req_ticks: None,
         };
         self.clock.store(0, Relaxed);
         self.ticks.store(0, Relaxed);
@@ -1079,6 +1089,13 @@ impl Kernel {
             drop(g);
             std::panic::resume_unwind(Box::new(AbortRun));
         }
+        if let Some(t) = st.exit_req_ticks {
+            if me != 0 && self.ticks.load(Relaxed).saturating_sub(t) > EXIT_ALLOW_TICKS {
+                self.end_run(st, EndReason::ExitOverdue);
+                drop(g);
+                std::panic::resume_unwind(Box::new(AbortRun));
+            }
+        }
         if st.threads.len() == 1 {
             return; // nobody to switch to, nothing blocked on us
         }
@@ -1151,6 +1168,7 @@ impl Kernel {
                     st.eof_reads += 1;
                     if !st.eof_logged {
                         st.eof_logged = true;
+                        st.exit_req_ticks = Some(self.ticks.load(Relaxed));
                         self.push_ev(st, 0, EvK::StdinEof);
                     }
                     if st.eof_reads > EOF_SPIN_LIMIT {
@@ -1188,6 +1206,9 @@ impl Kernel {
                     }
                     if line.split_whitespace().next() == Some("go") {
                         st.gos_sent += 1;
+                    }
+                    if line.split_whitespace().next() == Some("quit") && st.exit_req_ticks.is_none() {
+                        st.exit_req_ticks = Some(self.ticks.load(Relaxed));
                     }
                     st.deliveries += 1;
                     self.push_ev(st, 0, EvK::Deliver { action: idx, line });
